@@ -18,6 +18,7 @@ PID = "C15"
 # (cfg, driver operations that must occur as the last operation of some emitted script)
 MC_CFGS_QUICK = [
     ("TransportMC.cfg", ["queue", "pe", "read"]),
+    ("TransportMChs.cfg", ["pe", "read"]),
     ("TransportMCbp.cfg", ["queue", "pe", "read", "budget", "disc"]),
     ("TransportMCtamper.cfg", ["pe", "read", "tamper"]),
     ("TransportMCraw.cfg", ["pe", "read", "tamper", "raw_init", "raw_garbage", "queue"]),
@@ -26,7 +27,7 @@ MC_CFGS_QUICK = [
 ]
 MC_CFGS_THOROUGH = [
     ("TransportMCbig.cfg", ["queue", "pe", "read", "disc"]),
-    ("TransportMCbpbig.cfg", ["queue", "pe", "read", "budget", "disc"]),
+    ("TransportMCbpbig.cfg", ["queue", "pe", "read", "budget"]),
     ("TransportMCtamperbig.cfg", ["pe", "read", "tamper"]),
     ("TransportMCrawbig.cfg", ["pe", "read", "tamper", "raw_init", "raw_garbage", "queue"]),
     ("TransportMCrawinit.cfg", ["read", "raw_init", "queue"]),
